@@ -184,6 +184,8 @@ def parseData (ps : List Packet) (prs : ParserKind) (pm : ProgramMap) : Res (Lis
 
 inductive ReaderKind where
   | seek | bufio | plain
+  /-- a bufio.Reader whose buffer is smaller than the 193 bytes auto-detection wants to peek: handled like a plain reader -/
+  | bufioSmall
   deriving Repr, DecidableEq, Inhabited
 
 structure Reader where
